@@ -68,7 +68,7 @@ pub fn to_signed(x: u128, st: ScalarType) -> i128 {
     let w = st_bits(st);
     let x = x & mask(w);
     if st_signed(st) && w < 128 && (x >> (w - 1)) & 1 == 1 {
-        (x as i128) - (1i128 << w)
+        (x | !mask(w)) as i128
     } else {
         x as i128
     }
